@@ -121,6 +121,25 @@ def is_finite(G):
     return True
 
 
+def max_word_length(G):
+    """length of the longest generated word of a grammar with a finite, non-empty language (None otherwise): least fixpoint of
+    m(A) = max over useful productions of the sum of m over the body, reached after at most |V| + 1 rounds because no useful variable is on a
+    cycle that adds length (non-growing cycles A => A keep the maximum unchanged)"""
+    if not is_finite(G) or is_empty(G): return None
+    gen = generating(G); useful_prods = [(h, b) for h, b in G[1] if h in gen and all(s in gen for s in b)]
+    reach = reachable(mk(G[0], useful_prods)); prods = [(h, b) for h, b in useful_prods if h in reach]
+    m = {}
+    for _ in range(len(variables(G)) + 2):
+        new = dict(m)
+        for h, b in prods:
+            if all((not is_var(s)) or s in m for s in b):
+                v = sum(m[s] if is_var(s) else 1 for s in b)
+                if v > new.get(h, -1): new[h] = v
+        if new == m: break
+        m = new
+    return m.get(G[0])
+
+
 def words_upto(alphabet, n):
     alphabet = sorted(alphabet, key=repr)
     for k in range(n + 1):
